@@ -139,10 +139,14 @@ impl Transformer {
 //@       && (!o.dom().contains("width"@) && !o.dom().contains("height"@) ==>
 //@              m.dom().contains("width"@) && m["width"@] == fmt1("{}mm"@, fstr_spec((x2 - x1) * val(self.context.config.scale)))
 //@           && m.dom().contains("height"@) && m["height"@] == fmt1("{}mm"@, fstr_spec((y2 - y1) * val(self.context.config.scale))))
-//@       && (o.dom().contains("width"@) && !o.dom().contains("height"@) ==>
+//@       && (o.dom().contains("width"@) && !o.dom().contains("height"@) && x2 - x1 > 0real && y2 - y1 > 0real ==>
 //@              m.dom().contains("height"@) && m["height"@] == fmt2("{}{}"@, fstr_spec(rdiv(unit_value(o["width"@]), rdiv(x2 - x1, y2 - y1))), unit_suffix(o["width"@])))
-//@       && (!o.dom().contains("width"@) && o.dom().contains("height"@) ==>
+//@       && (!o.dom().contains("width"@) && o.dom().contains("height"@) && x2 - x1 > 0real && y2 - y1 > 0real ==>
 //@              m.dom().contains("width"@) && m["width"@] == fmt2("{}{}"@, fstr_spec(unit_value(o["height"@]) * rdiv(x2 - x1, y2 - y1)), unit_suffix(o["height"@]))) })     @@C08.root.derived
+//@ - r is Ok && bbox is Some ==> ({ let m = final(writer).roots().last(); let o = orig_attrs(first_svg);
+//@       let (x1, y1, x2, y2) = extent_of(bbox->Some_0, self.context.config.border as real);
+//@       !(x2 - x1 > 0real && y2 - y1 > 0real) ==> (!o.dom().contains("height"@) && o.dom().contains("width"@) ==> !m.dom().contains("height"@))
+//@                                              && (!o.dom().contains("width"@) && o.dom().contains("height"@) ==> !m.dom().contains("width"@)) })     @@C08.root.no_dimension_from_a_degenerate_extent
 //@ - r is Ok && bbox is None ==> ({ let m = final(writer).roots().last(); let o = orig_attrs(first_svg);
 //@       forall|k: Seq<char>| (k == "width"@ || k == "height"@ || k == "viewBox"@) && !o.dom().contains(k) ==> !#[trigger] m.dom().contains(k) })     @@C08.root.nothing_without_content
 //@end
